@@ -1320,3 +1320,124 @@ def part_N(ctx, seedval, only=None):
                 for key, what in _snap_diff(snap0, _snapshot(kernel)):
                     ctx.fail(f"checkpoint-kernel:attributes:{key}", f"{name} kernel batch {kb}: a chunked matmul under "
                              f"checkpoint_kernel({split}) changed the kernel object: {key}: {what}", dict(base, what=key))
+
+
+# ------------------------------------------------------------------ O: wrappers whose batch shape EXTENDS / broadcasts against the inner kernels'
+
+EXT_SHAPES = [((3,), (2, 3)), ((1, 3), (2, 3)), ((2, 1), (2, 3)), ((1,), (3,)), ((), (2,))]
+EXT_WRAPPERS = ("x_scale", "x_scale_scale", "x_sum", "x_prod", "x_scale_sum", "x_multitask", "x_addstruct", "x_prodstruct")
+
+
+def make_ext_wrapper(name, inner, outer, seedval):
+    """inner kernels with batch `inner`, the wrapper (or the other member) with batch `outer`: `outer` has more batch
+    dimensions than `inner` and / or `inner` has size-1 dimensions; all parameters differ across the batch"""
+    import torch
+    from gpytorch import kernels as K
+    M = _M()
+    Bi, Bo = torch.Size(inner), torch.Size(outer)
+    base = K.RBFKernel(batch_shape=Bi)
+    if name == "x_scale":
+        k = K.ScaleKernel(base, batch_shape=Bo)
+    elif name == "x_scale_scale":
+        k = K.ScaleKernel(K.ScaleKernel(base, batch_shape=Bi), batch_shape=Bo)
+    elif name == "x_sum":
+        k = K.AdditiveKernel(base, K.MaternKernel(nu=1.5, batch_shape=Bo))
+    elif name == "x_prod":
+        k = K.ProductKernel(base, K.LinearKernel(batch_shape=Bo))
+    elif name == "x_scale_sum":
+        k = K.ScaleKernel(K.AdditiveKernel(base, K.MaternKernel(nu=2.5, batch_shape=Bi)), batch_shape=Bo)
+    elif name == "x_multitask":
+        k = K.MultitaskKernel(base, num_tasks=2, rank=1, batch_shape=Bo)
+    elif name == "x_addstruct":
+        k = K.AdditiveStructureKernel(K.ScaleKernel(base, batch_shape=Bo), num_dims=M.D_IN)
+    elif name == "x_prodstruct":
+        k = K.ProductStructureKernel(K.ScaleKernel(base, batch_shape=Bo), num_dims=M.D_IN)
+    else:
+        raise ValueError(name)
+    g = M._gen(seedval, f"xparams:{name}:{inner}:{outer}")
+    with torch.no_grad():
+        for p in k.parameters():
+            p.copy_(0.6 * torch.randn(p.shape, generator=g, dtype=torch.float64))
+    k.double()
+    k.eval()
+    return k
+
+
+def part_O(ctx, seedval, only=None):
+    import torch
+    import gpytorch
+    M = _M()
+    rng = ctx.rng("O")
+    n = 4
+    for name in EXT_WRAPPERS:
+        t = 2 if name == "x_multitask" else 1
+        for inner, outer in EXT_SHAPES:
+            if only is not None and (name, list(inner), list(outer)) != tuple(only):
+                continue
+            kernel = make_ext_wrapper(name, inner, outer, seedval)
+            g = M._gen(seedval, f"O:{name}:{inner}:{outer}")
+            # a batched MultitaskKernel needs inputs that carry the batch (documented Kronecker limitation, part B)
+            x = M._randn(g, *(outer if t > 1 else ()), n, M.D_IN)
+            base = {"part": "wrapper-ext", "kernel": name, "inner_batch": list(inner), "outer_batch": list(outer)}
+            tag = f"O|{name}|{inner}|{outer}"
+            try:
+                with torch.no_grad(), gpytorch.settings.lazily_evaluate_kernels(False), warnings.catch_warnings():
+                    warnings.simplefilter("ignore")
+                    D = M._dense(kernel(x)).detach()
+            except Exception as e:
+                if t > 1:
+                    # a MultitaskKernel with a batch shape of its own: explicit Kronecker batch error (documented, part B)
+                    ctx.count("O_batched_multitask_rejected")
+                    continue
+                ctx.case(f"{tag}|kernel-call")
+                ctx.fail("wrapper-ext:kernel-call:raises", f"{name} with batch {outer} around kernels with batch {inner}: kernel(x) "
+                         f"raises {type(e).__name__}: {str(e)[:140]}", dict(base, what="call"))
+                continue
+            bs = tuple(D.shape[:-2])
+            per_dim = [_batch_dim_forms(b) for b in bs]
+            cover = [("S", None, None, None), ("I", bs[-1] - 1 if len(bs) > 1 else 0), ("I", 0)]
+            idxs = []
+            for d_ in range(len(bs)):
+                for f in per_dim[d_]:
+                    for others in itertools.product(*[cover if e != d_ else [None] for e in range(len(bs))]):
+                        idxs.append(tuple(f if o is None else o for o in others))
+            idxs = list(dict.fromkeys(idxs))
+            if len(bs) > 1:
+                ints = [i for i in idxs if all(j[0] == "I" for j in i)]
+                rest = [i for i in idxs if i not in ints]
+                k_ = 8 if ctx.quick else 40
+                idxs = ints[:12 if ctx.quick else None] + rng.sample(rest, min(k_, len(rest)))
+            xe = x.expand(*bs, n, M.D_IN)
+            for bi in idxs:
+                pidx = tuple(M.py_item(i) for i in bi)
+                try:
+                    want = D[pidx]
+                except Exception:
+                    continue
+                if 0 in want.shape:
+                    continue
+                for mode in ("lazy-getitem", "eager-getitem", "kernel-getitem"):
+                    if ctx.quick and mode == "eager-getitem":
+                        continue
+                    ctx.case(f"{tag}|{mode}|{M.enc_idx(bi)}", nontrivial=want.numel() < D.numel())
+                    rep = dict(base, what=mode, index_text=M.show_idx(bi))
+                    what = (f"kernel{M.show_idx(bi)}(x{M.show_idx(bi) if t > 1 else ''})" if mode == "kernel-getitem"
+                            else f"kernel(x){M.show_idx(bi)} (lazy={mode == 'lazy-getitem'})")
+                    try:
+                        with torch.no_grad(), warnings.catch_warnings(), \
+                                gpytorch.settings.lazily_evaluate_kernels(mode == "lazy-getitem"):
+                            warnings.simplefilter("ignore")
+                            if mode == "kernel-getitem":
+                                got = M._dense(kernel[pidx](xe[pidx] if t > 1 else x)).detach()
+                            else:
+                                got = M._dense(kernel(x)[pidx]).detach()
+                    except Exception as e:
+                        ctx.fail(f"wrapper-ext:{'kernel-getitem' if mode == 'kernel-getitem' else 'getitem'}:raises",
+                                 f"{name} with batch {outer} around kernels with batch {inner} (parameters differ across the batch): {what} "
+                                 f"raises {type(e).__name__}: {str(e)[:110]} although the dense tensor of shape {tuple(D.shape)} accepts the "
+                                 f"index", rep)
+                        continue
+                    if not M._close(got, want):
+                        ctx.fail(f"wrapper-ext:{'kernel-getitem' if mode == 'kernel-getitem' else 'getitem'}",
+                                 f"{name} with batch {outer} around kernels with batch {inner} (parameters differ across the batch): {what} "
+                                 f"differs from kernel(x).to_dense(){M.show_idx(bi)}: {M._maxerr(got, want)}", rep)
